@@ -7,7 +7,7 @@ import os
 import numpy as np
 import pandas as pd
 
-from .. import common
+from .. import common, checklib
 from ..rtc import par
 
 LEVEL = "exploration"
@@ -161,7 +161,13 @@ def make_known():
             print("  ", f, "->", s)
 
 
+def PROOFS():
+    from ..contracts import utils_c, terms_c
+    return [("vf.contracts.utils_c", utils_c.FUNCTIONS), ("vf.contracts.terms_c", terms_c.FUNCTIONS)]
+
+
 def run(report, findings):
+    checklib.run_proofs(report, "C05", PROOFS())
     with gzip.open(KNOWN, "rt") as fh:
         known = json.load(fh)
     fk = {f["id"] for f in findings if f.get("kind") == "finding"}
